@@ -764,3 +764,300 @@ Proof.
   intros H. pose proof (xxber_inverse_forest [t] (conj H I)) as E.
   unfold ser_forest in E. cbn [flat_map] in E. rewrite app_nil_r in E. exact E.
 Qed.
+
+(* ------------------------------------------------------------------ *)
+(* 7. arbitrary input: no assert() fires, the stated fuel suffices, the stream
+      position never passes the end of the input *)
+
+Lemma bytes_ok_app a b : bytes_ok (a ++ b) <-> bytes_ok a /\ bytes_ok b.
+Proof. unfold bytes_ok. apply Forall_app. Qed.
+
+Lemma read_tl_inv limit eoc : forall inp pre off tagbuf tag len tn ln inp1 off1,
+  read_tl limit eoc pre inp off = ROk tagbuf tag len tn ln inp1 off1 ->
+  exists suf, inp = suf ++ inp1 /\ tagbuf = pre ++ suf /\ suf <> [] /\ off1 = off + zlen suf /\
+              zlen tagbuf <= 32 /\ (0 <= limit -> zlen tagbuf <= limit) /\
+              (tn + ln)%nat = length tagbuf /\ fetch_tag tagbuf = FOk tag tn /\
+              fetch_length (is_constr tagbuf) (skipn tn tagbuf) = FOk len ln.
+Proof.
+  induction inp as [|ch inp IH]; intros pre off tagbuf tag len tn ln inp1 off1 H; cbn [read_tl] in H.
+  - destruct (limit =? 0); [discriminate|].
+    destruct ((0 <=? limit) && (limit <=? zlen pre)); [discriminate|].
+    destruct (32 <=? zlen pre); [discriminate|].
+    destruct ((0 <? limit) || eoc); discriminate.
+  - destruct (limit =? 0) eqn:E0; [discriminate|].
+    destruct ((0 <=? limit) && (limit <=? zlen pre)) eqn:E1; [discriminate|].
+    destruct (32 <=? zlen pre) eqn:E2; [discriminate|].
+    assert (Hrec : read_tl limit eoc (pre ++ [ch]) inp (off + 1) = ROk tagbuf tag len tn ln inp1 off1 ->
+                   exists suf, ch :: inp = suf ++ inp1 /\ tagbuf = pre ++ suf /\ suf <> [] /\ off1 = off + zlen suf /\
+                     zlen tagbuf <= 32 /\ (0 <= limit -> zlen tagbuf <= limit) /\
+                     (tn + ln)%nat = length tagbuf /\ fetch_tag tagbuf = FOk tag tn /\
+                     fetch_length (is_constr tagbuf) (skipn tn tagbuf) = FOk len ln).
+    { intros Hr. destruct (IH _ _ _ _ _ _ _ _ _ Hr) as (suf & -> & -> & _ & -> & R).
+      exists (ch :: suf). rewrite <- app_assoc in *. cbn [app] in *.
+      destruct R as (R1 & R2 & R3 & R4 & R5).
+      repeat split; try assumption; try discriminate.
+      rewrite zlen_cons. lia. }
+    destruct (fetch_tag (pre ++ [ch])) as [tg tnn| |] eqn:Et; [|exact (Hrec H)|discriminate].
+    destruct (fetch_length (is_constr (pre ++ [ch])) (skipn tnn (pre ++ [ch]))) as [lv lnn| |] eqn:El; [|exact (Hrec H)|discriminate].
+    destruct (Nat.eqb (tnn + lnn) (length (pre ++ [ch]))) eqn:Eq; [|discriminate].
+    injection H as <- <- <- <- <- <- <-.
+    exists [ch]. apply Nat.eqb_eq in Eq.
+    repeat split; try assumption; try discriminate.
+    + rewrite zlen_snoc. lia.
+    + rewrite zlen_snoc. intros. lia.
+Qed.
+
+Lemma read_tl_eof limit eoc : forall inp pre off off',
+  read_tl limit eoc pre inp off = REof off' -> off' = off + zlen inp.
+Proof.
+  induction inp as [|ch inp IH]; intros pre off off' H; cbn [read_tl] in H.
+  - destruct (limit =? 0); [discriminate|].
+    destruct ((0 <=? limit) && (limit <=? zlen pre)); [discriminate|].
+    destruct (32 <=? zlen pre); [discriminate|].
+    destruct ((0 <? limit) || eoc); [discriminate|]. injection H as <-. unfold zlen. cbn. lia.
+  - destruct (limit =? 0); [discriminate|].
+    destruct ((0 <=? limit) && (limit <=? zlen pre)); [discriminate|].
+    destruct (32 <=? zlen pre); [discriminate|].
+    rewrite zlen_cons.
+    destruct (fetch_tag (pre ++ [ch])) as [tg tnn| |]; [|apply IH in H; lia|discriminate].
+    destruct (fetch_length (is_constr (pre ++ [ch])) (skipn tnn (pre ++ [ch]))) as [lv lnn| |]; [|apply IH in H; lia|discriminate].
+    destruct (Nat.eqb (tnn + lnn) (length (pre ++ [ch]))); discriminate.
+Qed.
+
+Lemma read_v_spec : forall inp n bs rest, 0 <= n ->
+  read_v inp n = (bs, rest, true) -> inp = bs ++ rest /\ zlen bs = n.
+Proof.
+  induction inp as [|b inp IH]; intros n bs rest Hn H; cbn [read_v] in H.
+  - destruct (n <=? 0) eqn:E; [|discriminate]. injection H as <- <-. split; [reflexivity|unfold zlen; cbn; lia].
+  - destruct (n <=? 0) eqn:E.
+    + injection H as <- <-. split; [reflexivity|unfold zlen; cbn; lia].
+    + destruct (read_v inp (n - 1)) as [[bs' rest'] ok] eqn:Er. injection H as <- <- ->.
+      assert (Hn1 : 0 <= n - 1) by lia.
+      destruct (IH _ _ _ Hn1 Er) as [-> Hz]. split; [reflexivity|rewrite zlen_cons; lia].
+Qed.
+
+Lemma fetch_len_loop_nonneg k : forall buf acc sk v n, fetch_len_loop k buf acc sk = FOk v n -> 0 <= v.
+Proof.
+  induction k as [|k IH]; intros buf acc sk v n H; cbn [fetch_len_loop] in H.
+  - destruct ((acc <? 0) || (rssize_max <? acc)) eqn:E; [discriminate|]. injection H as <- _. lia.
+  - destruct buf as [|b tl]; [discriminate|]. destruct (acc <? two55); [|discriminate]. eapply IH; exact H.
+Qed.
+
+Lemma fetch_length_prim buf v n : bytes_ok buf -> fetch_length false buf = FOk v n -> 0 <= v.
+Proof.
+  intros Hok. destruct buf as [|b tl]; cbn [fetch_length]; [discriminate|].
+  inversion Hok as [|? ? Hb _]; subst. unfold byte_ok in Hb.
+  destruct (b <? 128); [intros H; injection H as <- _; lia|].
+  cbn [andb]. destruct (b =? 255); [discriminate|]. apply fetch_len_loop_nonneg.
+Qed.
+
+(* result of a loop started with [limit], [fsize] on an input that ends at
+   stream offset [fin] and has at most [n] octets left *)
+Definition goodr (limit fsize : Z) (n : nat) (fin : Z) (r : pdres) : Prop :=
+  match r with
+  | PDone _ _ fsize' rest off' =>
+      (length rest <= n)%nat /\ bytes_ok rest /\ (0 <= limit -> fsize' - fsize <= limit) /\ off' + zlen rest = fin
+  | PFail _ _ => True
+  | PAbort _ => False
+  | POutOfFuel => False
+  end.
+
+Lemma goodr_emit ls limit fsize n fin r : goodr limit fsize n fin (emit ls r) <-> goodr limit fsize n fin r.
+Proof. destruct r; reflexivity. Qed.
+
+Definition self_good (self : loop_t) (n : nat) : Prop :=
+  forall level limit esize eoc fsize pdc inp off,
+    (length inp <= n)%nat -> bytes_ok inp -> -1 <= limit ->
+    goodr limit fsize (length inp) (off + zlen inp) (self level limit esize eoc fsize pdc inp off).
+
+Lemma pd_next_good self n indef level limit2 esize2 eoc fsize2 c inp2 off2 :
+  self_good self n -> (length inp2 <= n)%nat -> bytes_ok inp2 -> -1 <= limit2 ->
+  goodr limit2 fsize2 (length inp2) (off2 + zlen inp2)
+        (pd_next self indef level limit2 esize2 eoc fsize2 c inp2 off2).
+Proof.
+  intros Hs Hl Hb Hlim.
+  assert (Hdone : goodr limit2 fsize2 (length inp2) (off2 + zlen inp2) (PDone [] c fsize2 inp2 off2)).
+  { cbn [goodr]. repeat split; try assumption; try lia. }
+  unfold pd_next. destruct indef.
+  - destruct c; [destruct ((limit2 <? 0) && negb eoc); [exact Hdone|]|]; apply Hs; assumption.
+  - destruct level; [destruct ((limit2 =? -1) && negb eoc); [exact Hdone|]|]; apply Hs; assumption.
+Qed.
+
+Lemma goodr_weaken limit fsize limit' fsize' n n' fin r :
+  goodr limit' fsize' n' fin r -> (n' <= n)%nat ->
+  (0 <= limit -> 0 <= limit' /\ limit' + (fsize' - fsize) <= limit) ->
+  goodr limit fsize n fin r.
+Proof.
+  destruct r; cbn [goodr]; auto. intros (A & B & C & D) Hn Hl. repeat split; try assumption; lia.
+Qed.
+
+Lemma pd_tlv_good self n level limit esize eoc fsize pdc tagbuf tag len inp1 off1 :
+  self_good self n -> (length inp1 <= n)%nat -> bytes_ok inp1 -> -1 <= limit ->
+  (0 <= limit -> zlen tagbuf <= limit) -> 0 <= zlen tagbuf -> -1 <= len ->
+  (is_constr tagbuf = false -> 0 <= len) ->
+  goodr limit fsize (length inp1) (off1 + zlen inp1)
+        (pd_tlv self level limit esize eoc fsize pdc tagbuf tag len (zlen tagbuf) inp1 off1).
+Proof.
+  intros Hs Hl Hb Hlim Htl Htl0 Hlen Hprim. unfold pd_tlv.
+  set (tl := zlen tagbuf) in *.
+  set (is_eoc := eoc && (nth 0 tagbuf 0 =? 0) && (nth 1 tagbuf 0 =? 0)).
+  set (cut := if is_eoc then [] else _).
+  assert (Hl1 : -1 <= sub_limit limit tl /\ (limit = -1 -> sub_limit limit tl = -1) /\
+                (limit <> -1 -> sub_limit limit tl = limit - tl /\ 0 <= limit - tl)).
+  { unfold sub_limit. destruct (limit =? -1) eqn:E; lia. }
+  set (limit1 := sub_limit limit tl) in *.
+  destruct (negb (limit =? -1) && (limit1 <? 0)) eqn:G1; [lia|].
+  destruct (negb (limit =? -1) && (limit1 <? len)) eqn:G2; [exact I|].
+  destruct is_eoc.
+  - cbn [goodr]. repeat split; try assumption; try lia.
+  - destruct (is_constr tagbuf) eqn:Ec.
+    + set (climit := if len =? -1 then limit1 else len).
+      assert (Hcl : -1 <= climit) by (unfold climit; destruct (len =? -1) eqn:E; lia).
+      pose proof (Hs (S level) climit tl (len =? -1) 0 PD_FINISHED inp1 off1 Hl Hb Hcl) as Hchild.
+      destruct (self (S level) climit tl (len =? -1) 0 PD_FINISHED inp1 off1) as [o c dec inp2 off2| | |];
+        cbn [goodr] in Hchild; try contradiction; [|exact I].
+      destruct Hchild as (C1 & C2 & C3 & C4).
+      assert (Hdec : limit <> -1 -> dec <= limit1).
+      { intros Hne. unfold climit in C3. destruct (len =? -1) eqn:E; lia. }
+      destruct (negb (limit1 =? -1) && (limit1 <? dec)) eqn:G3; [lia|].
+      apply goodr_emit.
+      assert (Hl2 : -1 <= sub_limit limit1 dec) by (unfold sub_limit; destruct (limit1 =? -1) eqn:E; lia).
+      rewrite <- C4.
+      eapply goodr_weaken.
+      * apply (pd_next_good self n); try assumption; lia.
+      * lia.
+      * intros H0. unfold sub_limit. destruct (limit1 =? -1) eqn:E; lia.
+      (* end offsets agree *)
+    + specialize (Hprim eq_refl).
+      destruct (len <? 0) eqn:G4; [lia|].
+      destruct (read_v inp1 len) as [[bs inp2] ok] eqn:Er.
+      destruct ok; [|exact I].
+      destruct (read_v_spec _ _ _ _ Hprim Er) as [-> Hz].
+      apply bytes_ok_app in Hb. destruct Hb as [_ Hb2].
+      rewrite app_length in *. rewrite zlen_app.
+      apply goodr_emit.
+      assert (Hl2 : -1 <= sub_limit limit1 len) by (unfold sub_limit; destruct (limit1 =? -1) eqn:E; lia).
+      replace (off1 + (zlen bs + zlen inp2)) with (off1 + len + zlen inp2) by lia.
+      eapply goodr_weaken.
+      * apply (pd_next_good self n); try assumption; lia.
+      * lia.
+      * intros H0. unfold sub_limit. destruct (limit1 =? -1) eqn:E; lia.
+Qed.
+
+Lemma read_tl_fin limit eoc : forall inp pre off, read_tl limit eoc pre inp off = RFinished -> limit = 0.
+Proof.
+  induction inp as [|ch inp IH]; intros pre off H; cbn [read_tl] in H.
+  - destruct (limit =? 0) eqn:E; [lia|].
+    destruct ((0 <=? limit) && (limit <=? zlen pre)); [discriminate|].
+    destruct (32 <=? zlen pre); [discriminate|].
+    destruct ((0 <? limit) || eoc); discriminate.
+  - destruct (limit =? 0) eqn:E; [lia|].
+    destruct ((0 <=? limit) && (limit <=? zlen pre)); [discriminate|].
+    destruct (32 <=? zlen pre); [discriminate|].
+    destruct (fetch_tag (pre ++ [ch])) as [tg tnn| |]; [|eapply IH; exact H|discriminate].
+    destruct (fetch_length (is_constr (pre ++ [ch])) (skipn tnn (pre ++ [ch]))) as [lv lnn| |]; [|eapply IH; exact H|discriminate].
+    destruct (Nat.eqb (tnn + lnn) (length (pre ++ [ch]))); discriminate.
+Qed.
+
+Lemma bytes_ok_skipn k bs : bytes_ok bs -> bytes_ok (skipn k bs).
+Proof.
+  revert bs. induction k as [|k IH]; intros [|b bs] H; cbn [skipn]; try assumption.
+  apply IH. inversion H; assumption.
+Qed.
+
+(* after a header has been read: the input got shorter and the iteration is good *)
+Lemma pd_body_rok self n level limit esize eoc fsize pdc inp off tagbuf tag len tn ln inp1 off1 :
+  self_good self n -> (length inp <= S n)%nat -> bytes_ok inp -> -1 <= limit ->
+  read_tl limit eoc [] inp off = ROk tagbuf tag len tn ln inp1 off1 ->
+  (length inp1 < length inp)%nat /\ off1 + zlen inp1 = off + zlen inp /\ (2 <= zlen tagbuf <= 32) /\
+  goodr limit fsize (length inp1) (off1 + zlen inp1)
+        (pd_tlv self level limit esize eoc fsize pdc tagbuf tag len (Z.of_nat tn + Z.of_nat ln) inp1 off1).
+Proof.
+  intros Hs Hl Hb Hlim Er.
+  destruct (read_tl_inv _ _ _ _ _ _ _ _ _ _ _ _ Er) as (suf & -> & Htb & Hne & -> & H32 & Hlt & Hlen & Hft & Hfl).
+  cbn [app] in Htb. subst tagbuf.
+  apply bytes_ok_app in Hb. destruct Hb as [Hb1 Hb2].
+  pose proof (fetch_tag_consumed _ _ _ Hft) as Htn.
+  destruct (fetch_length_consumed _ _ _ _ (bytes_ok_skipn tn suf Hb1) Hfl) as [Hln Hrange].
+  replace (Z.of_nat tn + Z.of_nat ln) with (zlen suf) by (unfold zlen; lia).
+  rewrite app_length in *. rewrite zlen_app.
+  split; [lia|]. split; [lia|]. split; [unfold zlen in *; lia|].
+  apply (pd_tlv_good self n); try assumption; try lia.
+  - apply zlen_nonneg.
+  - intros Hc. rewrite Hc in Hfl. eapply fetch_length_prim; [|exact Hfl]. apply bytes_ok_skipn. exact Hb1.
+Qed.
+
+Lemma pd_body_good self n : self_good self n -> self_good (pd_body self) (S n).
+Proof.
+  intros Hs level limit esize eoc fsize pdc inp off Hl Hb Hlim. unfold pd_body.
+  destruct (read_tl limit eoc [] inp off) as [|off'|d|tagbuf tag len tn ln inp1 off1] eqn:Er.
+  - cbn [goodr]. repeat split; try assumption; lia.
+  - apply read_tl_eof in Er. cbn [goodr]. change (zlen (@nil Z)) with 0. cbn [length].
+    repeat split; try (constructor); lia.
+  - exact I.
+  - destruct (pd_body_rok self n level limit esize eoc fsize pdc _ _ _ _ _ _ _ _ _ Hs Hl Hb Hlim Er) as (P1 & P2 & _ & P3).
+    rewrite <- P2. eapply goodr_weaken; [exact P3|lia|lia].
+Qed.
+
+(* an iteration that returns PD_FINISHED with limit <> 0 has consumed a header *)
+Lemma pd_body_progress self n level limit esize eoc fsize pdc inp off o fs' inp' off' :
+  self_good self n -> (length inp <= S n)%nat -> bytes_ok inp -> -1 <= limit -> limit <> 0 ->
+  pd_body self level limit esize eoc fsize pdc inp off = PDone o PD_FINISHED fs' inp' off' ->
+  (length inp' < length inp)%nat.
+Proof.
+  intros Hs Hl Hb Hlim Hl0. unfold pd_body.
+  destruct (read_tl limit eoc [] inp off) as [|off''|d|tagbuf tag len tn ln inp1 off1] eqn:Er; intros H.
+  - apply read_tl_fin in Er. lia.
+  - discriminate.
+  - discriminate.
+  - destruct (pd_body_rok self n level limit esize eoc fsize pdc _ _ _ _ _ _ _ _ _ Hs Hl Hb Hlim Er) as (P1 & _ & _ & P3).
+    rewrite H in P3. cbn [goodr] in P3. lia.
+Qed.
+
+Lemma pd_self_good f : self_good (pd (S f)) f.
+Proof.
+  induction f as [|f IH].
+  - rewrite pd_S. intros level limit esize eoc fsize pdc inp off Hl Hb Hlim.
+    destruct inp as [|? ?]; [|cbn in Hl; lia].
+    unfold pd_body. destruct (read_tl limit eoc [] [] off) as [|off'|d|tagbuf tag len tn ln inp1 off1] eqn:Er.
+    + cbn [goodr]. repeat split; try assumption; lia.
+    + apply read_tl_eof in Er. cbn [goodr]. change (zlen (@nil Z)) with 0 in *. cbn [length].
+      repeat split; try (constructor); lia.
+    + exact I.
+    + apply read_tl_inv in Er. destruct Er as (suf & Hs & _ & Hne & _). destruct suf; [congruence|discriminate].
+  - rewrite pd_S. apply pd_body_good. exact IH.
+Qed.
+
+(* the fuel that suffices, no assert(), position within the input *)
+Theorem pd_fuel fuel level limit esize eoc fsize pdc inp off :
+  (length inp < fuel)%nat -> bytes_ok inp -> -1 <= limit ->
+  goodr limit fsize (length inp) (off + zlen inp) (pd fuel level limit esize eoc fsize pdc inp off).
+Proof.
+  intros Hl Hb Hlim. destruct fuel as [|f]; [lia|].
+  eapply goodr_weaken; [apply (pd_self_good f); try assumption; lia|lia|lia].
+Qed.
+
+Lemma unber_loop_total fuel : forall inp off fsize,
+  (length inp < fuel)%nat -> bytes_ok inp ->
+  exists ls x, unber_loop fuel inp off fsize = (ls, x) /\ (x = XOk \/ exists d, x = XFail d).
+Proof.
+  induction fuel as [|f IH]; intros inp off fsize Hl Hb; [lia|].
+  cbn [unber_loop].
+  pose proof (pd_fuel (S f) 0%nat (-1) 0 false fsize PD_FINISHED inp off Hl Hb ltac:(lia)) as Hg.
+  destruct (pd (S f) 0%nat (-1) 0 false fsize PD_FINISHED inp off) as [o c fs' inp' off'|o d|o|] eqn:Ep;
+    cbn [goodr] in Hg; try contradiction.
+  - destruct c.
+    + destruct Hg as (G1 & G2 & _ & _).
+      assert (Hlt : (length inp' < length inp)%nat).
+      { destruct f as [|f']; [destruct inp; [|cbn in Hl; lia]; cbn in Ep; discriminate|].
+        rewrite pd_S in Ep.
+        eapply (pd_body_progress (pd (S f')) f'); [apply pd_self_good| | | | |exact Ep]; try assumption; lia. }
+      destruct (IH inp' off' fs' ltac:(lia) G2) as (ls & x & E & Hx).
+      exists (o ++ ls), x. rewrite E. split; [reflexivity|exact Hx].
+    + exists o, XOk. split; [reflexivity|left; reflexivity].
+  - exists o, (XFail d). split; [reflexivity|right; exists d; reflexivity].
+Qed.
+
+Theorem unber_total bs : bytes_ok bs ->
+  exists ls x, unber bs = (ls, x) /\ (x = XOk \/ exists d, x = XFail d).
+Proof. intros H. apply unber_loop_total; [lia|exact H]. Qed.
